@@ -39,3 +39,74 @@ Theorem C07_exact_line_search : forall (F : realFieldType) (n : nat) (B : 'M[F]_
   bf B (u - (bf B v u / bf B v v) *: v) (u - (bf B v u / bf B v v) *: v) <= bf B (u - c *: v) (u - c *: v).
 Proof. move=> F n B Bs Bp u v c. exact: linesearch_optimal. Qed.
 Print Assumptions C07_exact_line_search.
+
+(* ---- conjugate residuals, CGNR, CGNE: the loops of _cr.py, _cgnr.py, _cgne.py (no preconditioner; ANY schedule
+   rc of "recompute r = b - A x" versus "update r") are conjugate gradients in another inner product
+   (Algebra/KrylovGen.v, KrylovInst.v: simulation lemmas cr_sim, nr_sim, ne_sim), hence: ---- *)
+Require Import PV.Algebra.KrylovInst.
+Require PV.Algebra.KrylovGen.
+
+(* CR (A symmetric, A xs = b): the k-th iterate minimises ||b - A x||_2 over x0 + span(p_0..p_{k-1}), and the
+   residual norm never increases *)
+Theorem C07_cr_optimal : forall (F : realFieldType) (n : nat) (A : 'M[F]_n), A^T = A ->
+  forall (b x0 : 'cV[F]_n) (rc : nat -> bool) (xs : 'cV[F]_n), A *m xs = b ->
+  forall (k : nat) (c : nat -> F), KrylovGen.ok A A b x0 k ->
+  rsq A b (cx (crS A b x0 rc k)) <= rsq A b (x0 + KrylovGen.comb A A b x0 k c).
+Proof. move=> F n A As b x0 rc xs Hxs k c hk. exact: (@cr_optimal F n A As b x0 rc xs Hxs k c hk). Qed.
+Print Assumptions C07_cr_optimal.
+Theorem C07_cr_monotone : forall (F : realFieldType) (n : nat) (A : 'M[F]_n), A^T = A ->
+  forall (b x0 : 'cV[F]_n) (rc : nat -> bool) (xs : 'cV[F]_n), A *m xs = b ->
+  forall k : nat, KrylovGen.ok A A b x0 k.+1 ->
+  rsq A b (cx (crS A b x0 rc k.+1)) <= rsq A b (cx (crS A b x0 rc k)).
+Proof. move=> F n A As b x0 rc xs Hxs k hk. exact: (@cr_monotone F n A As b x0 rc xs Hxs k hk). Qed.
+Print Assumptions C07_cr_monotone.
+
+(* CGNR (any m x n matrix, A xs = b): the k-th iterate minimises ||b - A x||_2 over x0 + span(p_0..p_{k-1}) *)
+Theorem C07_cgnr_optimal : forall (F : realFieldType) (m n : nat) (A : 'M[F]_(m, n))
+  (b : 'cV[F]_m) (x0 : 'cV[F]_n) (rc : nat -> bool) (xs : 'cV[F]_n), A *m xs = b ->
+  forall (k : nat) (c : nat -> F), KrylovGen.ok 1%:M (A^T *m A) (A^T *m b) x0 k ->
+  nrsq A b (nx (nrS A b x0 rc k)) <= nrsq A b (x0 + KrylovGen.comb 1%:M (A^T *m A) (A^T *m b) x0 k c).
+Proof. move=> F m n A b x0 rc xs Hxs k c hk. exact: (@cgnr_optimal F m n A b x0 rc xs Hxs k c hk). Qed.
+Print Assumptions C07_cgnr_optimal.
+Theorem C07_cgnr_monotone : forall (F : realFieldType) (m n : nat) (A : 'M[F]_(m, n))
+  (b : 'cV[F]_m) (x0 : 'cV[F]_n) (rc : nat -> bool) (xs : 'cV[F]_n), A *m xs = b ->
+  forall k : nat, KrylovGen.ok 1%:M (A^T *m A) (A^T *m b) x0 k.+1 ->
+  nrsq A b (nx (nrS A b x0 rc k.+1)) <= nrsq A b (nx (nrS A b x0 rc k)).
+Proof. move=> F m n A b x0 rc xs Hxs k hk. exact: (@cgnr_monotone F m n A b x0 rc xs Hxs k hk). Qed.
+Print Assumptions C07_cgnr_monotone.
+
+(* CGNE (A A^T ys = b - A x0, so xs = x0 + A^T ys solves A xs = b): the k-th iterate minimises the 2-norm of the
+   error xs - x over x0 + A^T span(p_0..p_{k-1}) *)
+Theorem C07_cgne_optimal : forall (F : realFieldType) (m n : nat) (A : 'M[F]_(m, n))
+  (b : 'cV[F]_m) (x0 : 'cV[F]_n) (rc : nat -> bool) (ys : 'cV[F]_m), (A *m A^T) *m ys = b - A *m x0 ->
+  forall (k : nat) (c : nat -> F), KrylovGen.ok 1%:M (A *m A^T) (b - A *m x0) 0 k ->
+  esq A x0 ys (ex (neS A b x0 rc k)) <=
+  esq A x0 ys (x0 + A^T *m (0 + KrylovGen.comb 1%:M (A *m A^T) (b - A *m x0) 0 k c)).
+Proof. move=> F m n A b x0 rc ys Hys k c hk. exact: (@cgne_optimal F m n A b x0 rc ys Hys k c hk). Qed.
+Print Assumptions C07_cgne_optimal.
+Theorem C07_cgne_monotone : forall (F : realFieldType) (m n : nat) (A : 'M[F]_(m, n))
+  (b : 'cV[F]_m) (x0 : 'cV[F]_n) (rc : nat -> bool) (ys : 'cV[F]_m), (A *m A^T) *m ys = b - A *m x0 ->
+  forall k : nat, KrylovGen.ok 1%:M (A *m A^T) (b - A *m x0) 0 k.+1 ->
+  esq A x0 ys (ex (neS A b x0 rc k.+1)) <= esq A x0 ys (ex (neS A b x0 rc k)).
+Proof. move=> F m n A b x0 rc ys Hys k hk. exact: (@cgne_monotone F m n A b x0 rc ys Hys k hk). Qed.
+Print Assumptions C07_cgne_monotone.
+
+(* GMRES: whenever the basis satisfies the Arnoldi relation A V_k = V_{k+1} H with orthonormal V_{k+1}, the initial
+   residual is V_{k+1} g, and an orthogonal Q (the product of the Givens rotations) triangularises H
+   (Q H = [R; 0], Q g = [gt; gb]), the iterate x0 + V_k y with R y = gt has squared residual norm gb^2 -- the
+   quantity the code reports -- and no element of x0 + range(V_k) has a smaller residual.  (The hypotheses are
+   the textbook invariants of Arnoldi + Givens; they are not derived from a model of the loops.) *)
+Theorem C07_gmres_least_squares_partial : forall (F : realFieldType) (n k : nat) (A : 'M[F]_n) (b x0 : 'cV[F]_n)
+  (Vk : 'M[F]_(n, k)) (V1 : 'M[F]_(n, k + 1)) (H : 'M[F]_(k + 1, k)) (g : 'cV[F]_(k + 1)),
+  A *m Vk = V1 *m H -> V1^T *m V1 = 1%:M -> b - A *m x0 = V1 *m g ->
+  forall (Q : 'M[F]_(k + 1)) (R : 'M[F]_k) (gt : 'cV[F]_k) (gb : 'cV[F]_1),
+  Q^T *m Q = 1%:M -> Q *m H = col_mx R 0 -> Q *m g = col_mx gt gb ->
+  forall y w : 'cV[F]_k, R *m y = gt ->
+  grsq A b (x0 + Vk *m y) = dot gb gb /\ grsq A b (x0 + Vk *m y) <= grsq A b (x0 + Vk *m w).
+Proof. move=> F n k A b x0 Vk V1 H g Ar Or Hr Q R gt gb Qo QH Qg y w Hy. exact: (@gmres_optimal F n k A b x0 Vk V1 H g Ar Or Hr Q R gt gb Qo QH Qg y w Hy). Qed.
+Print Assumptions C07_gmres_least_squares_partial.
+
+(* non-vacuity: the no-breakdown hypothesis [ok .. k] holds for k = 1 on the 1x1 identity system (b = 1, x0 = 0),
+   which is at once an instance for CR (B = K = A = 1), CGNR and CGNE (B = 1, K = A^T A = A A^T = 1) *)
+Example C07_ok_satisfiable : forall F : realFieldType, KrylovGen.ok (1%:M : 'M[F]_1) 1%:M 1%:M 0 1.
+Proof. exact: ok_example. Qed.
